@@ -51,6 +51,7 @@ class PluginGen(object):
         self.store = {"clearAfter": False, "mayShrink": False, "enter": [], "exit": [], "xg": None}
         self.applied = dict(self.store)
         self.active = False
+        self.exactOnly = True     # see act_print
 
     # ------------------------------------------------------------------ settings
     def act_settings(self):
@@ -176,7 +177,11 @@ class PluginGen(object):
                 return {"t": "rect", "x1": x1 - d, "y1": y1 - rng.choice([0, mm]), "x2": x2 + d,
                         "y2": y2 + rng.choice([0, 5 * mm])}
             if how == "shrink":
-                return {"t": "rect", "x1": x1 + mm, "y1": y1, "x2": x2, "y2": y2}
+                side = rng.choice(["x1", "y1", "x2", "y2"])
+                box = {"t": "rect", "x1": x1 - 5 * mm, "y1": y1 - 5 * mm, "x2": x2 + 5 * mm,
+                       "y2": y2 + 5 * mm}
+                box[side] = {"x1": x1 + mm, "y1": y1 + mm, "x2": x2 - mm, "y2": y2 - mm}[side]
+                return box
             if how == "shift":
                 return {"t": "rect", "x1": x1 + mm, "y1": y1 + mm, "x2": x2 + mm, "y2": y2 + mm}
             if how == "same":
@@ -207,6 +212,15 @@ class PluginGen(object):
         if how == "retype_cover":
             d = rng.choice([0, mm])
             return {"t": "rect", "x1": cx - r - d, "y1": cy - r, "x2": cx + r + d, "y2": cy + r}
+        if how == "touch":
+            # a generous rectangle that misses the disc on exactly one side
+            big = 20 * mm
+            box = {"x1": cx - r - big, "y1": cy - r - big, "x2": cx + r + big, "y2": cy + r + big}
+            side = rng.choice(["x1", "y1", "x2", "y2"])
+            box[side] = {"x1": cx - r + mm, "y1": cy - r + mm, "x2": cx + r - mm,
+                         "y2": cy + r - mm}[side]
+            box["t"] = "rect"
+            return box
         if how == "retype_in":
             k = r // 5
             return {"t": "rect", "x1": cx - 3 * k, "y1": cy - 4 * k, "x2": cx + 3 * k,
@@ -238,7 +252,8 @@ class PluginGen(object):
                                    regions0=known, new_regions=0, cfg=cfg)
         # exact frames only: the generator's view of the registry may lag behind the real one
         # (it does not predict whether an update is accepted), so nothing may depend on margins
-        gen.useInch = gen.useRel = gen.useG92 = gen.useArcs = False
+        if self.exactOnly:
+            gen.useInch = gen.useRel = gen.useG92 = gen.useArcs = False
         gen.lateRegions = False
         prog = gen.build()
         steps = list(prog.steps)
@@ -301,5 +316,9 @@ class PluginGen(object):
         return hist
 
 
-def generate(seed, focus=None):
-    return PluginGen(seed, focus).build()
+def generate(seed, focus=None, exact_only=True, g90e=None):
+    gen = PluginGen(seed, focus)
+    gen.exactOnly = exact_only
+    if g90e is not None:
+        gen.g90e = g90e
+    return gen.build()
